@@ -35,8 +35,11 @@ theorem readLen_append (cfg : Cfg) (n : Int) (rem : Nat) (bs r : Bytes) (hn : n 
     readLen cfg n ⟨bs ++ r, rem⟩ = .ok bs ⟨r, rem - bs.length⟩ := by
   subst hn
   have h0 : ¬ ((bs.length : Int) < 0) := by omega
-  simp [readLen, h0, hr, List.take_left', List.drop_left']
-  omega
+  have h1 : ¬ (bs.length > rem) := by omega
+  have h2 : ¬ (bs.length > (bs ++ r).length + 65536) := by simp; omega
+  have h3 : bs.length ≤ (bs ++ r).length := by simp
+  simp only [readLen, h0, if_false, Int.toNat_natCast, h1, h2, decide_false, Bool.and_false, Bool.false_eq_true, h3, if_true,
+    List.take_left' rfl, List.drop_left' rfl]
 
 theorem lenOfU_small (cfg : Cfg) (u : Nat) (h : u < 2 ^ 31) : lenOfU cfg u = u := by
   unfold lenOfU
@@ -49,10 +52,11 @@ theorem lenOfU_small (cfg : Cfg) (u : Nat) (h : u < 2 ^ 31) : lenOfU cfg u = u :
     have : u < 2 ^ (64 - 1) := by omega
     simp [this]
 
-theorem allocElems_ok (cfg : Cfg) (n : Nat) (d : Dec) (h : n ≤ d.remain) :
+theorem allocElems_ok (cfg : Cfg) (n : Nat) (d : Dec) (h : n ≤ d.remain) (hi : n ≤ d.inp.length + 1024) :
     allocElems cfg (n : Int) d = .ok n d := by
   have h0 : ¬ ((n : Int) < 0) := by omega
   have h1 : ¬ (n > d.remain) := by omega
-  simp [allocElems, h0, h1]
+  have h2 : ¬ (n > d.inp.length + 1024) := by omega
+  simp [allocElems, h0, h1, h2]
 
 end KV.Codec
